@@ -40,6 +40,17 @@ fn observe(r: &ReplaceSource<BoxSource>, o: &Obs) {
   }
 }
 
+/// source() of the object, or a complaint when size / buffer / rope / to_writer do not describe the same bytes
+fn src_checked(r: &ReplaceSource<BoxSource>) -> String {
+  let s = r.source().to_string();
+  let b = s.as_bytes();
+  let size = r.size(); let buf = r.buffer(); let rope = r.rope().to_string(); let mut w = vec![]; let wr = r.to_writer(&mut w);
+  if size != b.len() || &*buf != b || rope.as_bytes() != b || wr.is_err() || w != b {
+    return format!("views-disagree source {} bytes, size() {}, buffer() {} bytes, rope() {} bytes, to_writer {} bytes", b.len(), size, buf.len(), rope.len(), w.len())
+  }
+  hx(b)
+}
+
 impl ReplHist {
   fn inner_tree(&self) -> T { if self.original { T::Orig(self.inner.clone(), "a.js".into()) } else { T::Raw(self.inner.clone()) } }
   /// replacement list after each step (the model is asked at every observation point and at the end)
@@ -69,12 +80,12 @@ impl SimpleCase for ReplHist {
             else if x.start == x.end && *plain { r.insert_with_enforce(x.start, &x.content, x.name.as_deref(), enforce_of(x.enforce)) }
             else { r.replace_with_enforce(x.start, x.end, &x.content, x.name.as_deref(), enforce_of(x.enforce)) }
           }
-          Step::Obs(o) => { observe(&r, o); out.push("ok".to_string()); out.push(hx(r.source().as_bytes())); }
+          Step::Obs(o) => { observe(&r, o); out.push("ok".to_string()); out.push(src_checked(&r)); }
           Step::Clone => { r = r.clone(); }
-          Step::CloneObserve(o) => { let c = r.clone(); observe(&c, o); out.push("ok".to_string()); out.push(hx(c.source().as_bytes())); }
+          Step::CloneObserve(o) => { let c = r.clone(); observe(&c, o); out.push("ok".to_string()); out.push(src_checked(&c)); }
         }
       }
-      out.push("ok".to_string()); out.push(hx(r.source().as_bytes()));
+      out.push("ok".to_string()); out.push(src_checked(&r));
       out
     });
     match r { Ok(v) => out = v, Err(m) => { let n = self.reqs().len(); out = (0..n).map(|_| format!("panic {}", panic_kind(&m))).collect(); } }
@@ -85,6 +96,7 @@ impl SimpleCase for ReplHist {
     for (k, rs) in self.points().iter().enumerate() {
       let got = &outs[2 * k + 1];
       if got.starts_with("panic") { v.push(finding("no-panic", got.clone())); break }
+      if got.starts_with("views-disagree") { v.push(finding("views-coherent", format!("observation point {k}: {got}"))); break }
       let want = apply_repls(self.inner.as_bytes(), rs);
       if *got != hx(&want) { v.push(finding("reference-model", format!("observation point {k}: source() {:?}, reference {:?}", unhx(got).map(|b| lossy(&b)), lossy(&want)))); break }
     }
